@@ -935,10 +935,25 @@ def py_bound_out_of_type(sc, root_cls, stmts_with_prefix, values_by_path):
         lo, hi = (-(1 << (W - 1)), (1 << (W - 1)) - 1) if sg else (0, (1 << W) - 1)
         return lo <= v <= hi
 
+    def narrow_not(e, W, prefix):
+        """~X inside a constant expression with X a compound expression narrower than the comparison: the solver builds X at the
+        context width and inverts there, bounds inference inverts at X's own width (ExprUnaryModel.val)"""
+        k = e[0]
+        if k == "not":
+            x = e[1]
+            if x[0] in ("bin", "not") and typ(x, prefix)[0] < W:
+                return True
+            return narrow_not(x, W, prefix)
+        if k == "bin":
+            return narrow_not(e[2], W, prefix) or narrow_not(e[3], W, prefix)
+        return False
+
     def mismatch(c, o, prefix):
         """constant side c compared with non-constant side o: does conversion to the comparison type change an integer value?"""
         (wc, sc_), (wo, so) = typ(c, prefix), typ(o, prefix)
         W, sg = max(wc, wo), sc_ and so
+        if narrow_not(c, W, prefix):
+            return True
         if not repr_ok(pv(c, prefix), W, sg):
             return True
         return False
